@@ -44,4 +44,5 @@ def main(tier):
     chk.run("R-ALIASCTOR", B.aliasctor, r, floor=3)
     chk.run("R-INTRANGE", RG.intrange, r, parts=('backend',), floor=4)
     chk.run("R-BOUNDARY", RG.boundary, r, only_wider=True, floor=130)
+    chk.run("R-TEXTSIG", B.textsig, r, cx.templates, floor=2)
     return chk.finish()
